@@ -16,7 +16,7 @@ import tempfile
 
 from . import common as cm
 
-ANCHORS = ["pyflyby._py:_parse_auto_apply_args", "pyflyby._py:UserExpr._infer_and_evaluate", "pyflyby._py:_get_argspec",
+ANCHORS = ["pyflyby._idents:is_identifier", "pyflyby._py:_parse_auto_apply_args", "pyflyby._py:UserExpr._infer_and_evaluate", "pyflyby._py:_get_argspec",
            "pyflyby._py:_interpret_arg_mode", "pyflyby._py:auto_apply", "pyflyby._py:_Namespace.auto_eval",
            "pyflyby._py:_PyMain._parse_global_opts", "pyflyby._py:_PyMain._run_action", "pyflyby._py:_PyMain.apply",
            "pyflyby._py:_PyMain.eval", "pyflyby._py:_PyMain.execfile", "pyflyby._py:_PyMain.exec_stdin",
@@ -31,8 +31,14 @@ KINDS = ["function", "method", "class", "opaque"]
 
 HELPISH = ["?", "-?", "--?", "??", "-??", "--??"]
 
-PNAMES = ["foo", "foobar", "fo", "bar", "baz", "b", "key", "k", "x_y", "help", "h", "source", "\u00e9t\u00e9", "\u00e9"]
-ONAMES = PNAMES + ["zz", "fooba", "x-y", "f", "ba", "ke", "sourc", "hel", "1x", "if", "-x", "", "\u00e9t", "x.y", "a b"]
+PNAMES = ["foo", "foobar", "fo", "bar", "baz", "b", "key", "k", "x_y", "help", "h", "source", "\u00e9t\u00e9", "\u00e9",
+          # identifiers that are not letters-only: combining marks / vowel signs (Devanagari, Thai), U+00B7 (Other_ID_Continue),
+          # U+2118 (Other_ID_Start), a base letter + combining acute; "file"/"full" are what NFKC makes of the ligature / full-width spellings
+          "\u0928\u093e\u092e", "\u0928\u093e\u092e\u0915", "\u0e0a\u0e37\u0e48\u0e2d", "paral\u00b7lel", "\u2118x", "x\u0301y", "file", "full"]
+ONAMES = PNAMES + ["zz", "fooba", "x-y", "f", "ba", "ke", "sourc", "hel", "1x", "if", "-x", "", "\u00e9t", "x.y", "a b",
+                   # prefixes cut inside a combining sequence, NFKC-normalising spellings, a leading combining mark, a lone middle dot
+                   "\u0928\u093e", "\u0928", "\u0e0a\u0e37", "\u0e0a", "paral\u00b7", "\u2118", "x\u0301", "\ufb01le", "\uff46\uff55\uff4c\uff4c",
+                   "\u0301x", "\u00b7x", "\u093e\u092e"]
 
 PLAIN = ["abc", "q", "hello", "a b", "", " ", "x\ty", "\u65e5\u672c", "Barrow"]
 EXPRS = ["1", "1+2", "-5", "[1, 2]", "'x'", "\"o'q\"", "1/0", "None", "os.sep", "sys.maxsize", "math.pi", "(1,)",
@@ -49,7 +55,7 @@ VALS = PLAIN + EXPRS + SHELL
 def gen_sig(r, small=False):
     names = r.sample(PNAMES if not small else PNAMES[:9], r.randint(0, 5))
     if r.random() < .35 and not small:        # force shared prefixes
-        base = r.choice(["foo", "ba", "k"])
+        base = r.choice(["foo", "ba", "k", "\u0928\u093e"])
         names = [n for n in names if not n.startswith(base)] + [x for x in PNAMES if x.startswith(base)][:r.randint(2, 3)]
         r.shuffle(names)
     npos = r.randint(0, len(names))
@@ -950,7 +956,7 @@ def compare(ctx, cases, impl, index, model):
 
 def run(ctx):
     cm.check_anchors(ctx, ANCHORS)
-    n = (2400 if ctx.quick else 60000) * ctx.scale
+    n = (2400 if ctx.quick else 50000) * ctx.scale
     n = int(os.environ.get("VERIF_C15_N", n))
     ctx.coverage["rule"] = (
         "cases from one seeded PRNG: 80% _parse_auto_apply_args(_get_argspec(f), argv, ns, mode) on generated signatures "
@@ -958,7 +964,7 @@ def run(ctx):
         "method, class, opaque callable) x command lines (--k=v, --k v, -k v, -k=v, --k=, --, -, help forms, expression-like "
         "and shell-like strings) x string/eval/auto; 10% direct BindSpec.bind vs inspect.signature.bind; 10% _interpret_arg_mode; "
         "700 _PyMain(argv).run() front-end cases in-process (all action forms x explicit / no arg mode, recording callees) against "
-        "PyArgs/Main.v; plus bin/py subprocess runs; thorough (60 000 generated) adds all argv of length <= 3 over a 14-token alphabet x 5 signatures x 3 modes (about 44 000 cases). "
+        "PyArgs/Main.v; plus bin/py subprocess runs; thorough (50 000 generated) adds all argv of length <= 3 over a 14-token alphabet x 5 signatures x 3 modes (about 44 000 cases). "
         "non-trivial = an option or more than one argument; distinct by hash of the case")
     ctx.assumptions += [
         "expression evaluation is an oracle argument: for every string of the command line, `str(block).strip()`, "
